@@ -19,7 +19,7 @@ YearStart(y) == (365 * (y - 1970)) + LeapsUpTo(y - 1) - LeapsUpTo(1969)
 MonthStart(y, m) == LET RECURSIVE acc(_)
                         acc(k) == IF k = 0 THEN 0 ELSE acc(k - 1) + MonthLen(y, k)
                     IN acc(m - 1)
-Years == 1970..2200
+Years == 1969..2200
 DateOfDay(n) ==
   LET y == CHOOSE yy \in Years : YearStart(yy) <= n /\ n < YearStart(yy + 1)
       r == n - YearStart(y)
@@ -33,6 +33,7 @@ YYMMDD(dt) == LET yy == dt[1] - 2000
 
 \* anchors (day numbers computed independently: python datetime)
 CalAnchors ==
+  /\ DateOfDay(-1) = <<1969, 12, 31>>       /\ DateOfDay(-365) = <<1969, 1, 1>>
   /\ DateOfDay(0) = <<1970, 1, 1>>          /\ DateOfDay(10956) = <<1999, 12, 31>>
   /\ DateOfDay(10957) = <<2000, 1, 1>>      /\ DateOfDay(11016) = <<2000, 2, 29>>
   /\ DateOfDay(11017) = <<2000, 3, 1>>      /\ DateOfDay(19782) = <<2024, 2, 29>>
